@@ -379,7 +379,9 @@ def check_c06(ctx, job, gro, top):
                                           f"{X.mean(axis=0).tolist()} differs from the residue position {cg.tolist()}")
                 continue
             res = kabsch_residual(T, X - cg)
-            if res > 1e-8:
+            # 1e-6 nm: the SVD of a (nearly) planar template is ill-conditioned, residuals of ~1e-8 occur for exact
+            # rigid copies (seen once in 27 000 thorough runs); a mirror image of a chiral template leaves >= 1e-3
+            if res > 1e-6:
                 # distinguish a reflected/deformed copy from a name mix-up
                 dT = np.linalg.norm(T[:, None, :] - T[None, :, :], axis=2)
                 dX = np.linalg.norm(X[:, None, :] - X[None, :, :], axis=2)
@@ -396,7 +398,7 @@ def check_c06(ctx, job, gro, top):
             order = np.argsort(names)
             dXs = dX[np.ix_(order, order)]
             if key in dist_by_key:
-                if dist_by_key[key].shape != dXs.shape or np.max(np.abs(dist_by_key[key] - dXs)) > 1e-8:
+                if dist_by_key[key].shape != dXs.shape or np.max(np.abs(dist_by_key[key] - dXs)) > 1e-7:
                     ctx.fail("C06", "congruent", f"copies of residue type {nd['resname']} are not congruent")
             else:
                 dist_by_key[key] = dXs
